@@ -11,6 +11,7 @@ import (
 	"bytes"
 	"encoding/binary"
 	"encoding/hex"
+	"encoding/json"
 	"fmt"
 	"reflect"
 	"strings"
@@ -67,7 +68,7 @@ func runAccessors(p interface{}) accResult {
 	v := reflect.ValueOf(p).Elem()
 	tname := v.Type().Name()
 	// formatting the PDU as text: fmt recovers a panicking String method and prints a PANIC marker
-	for _, verb := range []string{"%v", "%+v"} {
+	for _, verb := range []string{"%v", "%+v", "%s", "%#v"} {
 		verb := verb
 		try("fmt "+verb+" "+tname, false, func() {
 			if s := fmt.Sprintf(verb, p); strings.Contains(s, "PANIC=") {
@@ -75,6 +76,8 @@ func runAccessors(p interface{}) accResult {
 			}
 		})
 	}
+	// encoding/json walks the exported fields and calls MarshalJSON / MarshalText where defined; an error is fine, a panic is not
+	try("json.Marshal "+tname, false, func() { _, _ = json.Marshal(p) })
 	var seq int32
 	var status pdu.CommandStatus
 	try("ReadSequence", true, func() { seq = pdu.ReadSequence(p) })
@@ -102,7 +105,7 @@ func runAccessors(p interface{}) accResult {
 		}
 		// text form of the field: fmt verbs and a direct call of String()
 		try("fmt "+fname, false, func() {
-			if s := fmt.Sprintf("%v|%+v", f.Interface(), f.Interface()); strings.Contains(s, "PANIC=") {
+			if s := fmt.Sprintf("%v|%+v|%s|%#v", f.Interface(), f.Interface(), f.Interface(), f.Interface()); strings.Contains(s, "PANIC=") {
 				panic("fmt reported a panicking String method: " + s[strings.Index(s, "PANIC="):])
 			}
 		})
@@ -249,7 +252,8 @@ func mutate(r *Rng, b []byte) []byte {
 }
 
 // one frame through ReadPDU and, if it yields a PDU, through every accessor
-func c11Frame(r *Run, frame []byte, bucket string, fullPath bool, collect *[]*pdu.DeliverSM) {
+func c11Frame(r *Run, frame []byte, bucket string, fullPath bool, collect *[]*pdu.DeliverSM, opt ...bool) {
+	modelCase := len(opt) == 0 || opt[0]
 	input := "frame " + hex.EncodeToString(frame)
 	var p interface{}
 	var err error
@@ -273,7 +277,7 @@ func c11Frame(r *Run, frame []byte, bucket string, fullPath bool, collect *[]*pd
 	if d, ok := p.(*pdu.DeliverSM); ok && collect != nil {
 		*collect = append(*collect, d)
 	}
-	if err != nil {
+	if err != nil || !modelCase {
 		return // the model has no partially filled value; the direct test above stands
 	}
 	id := binary.BigEndian.Uint32(frame[4:8])
@@ -349,6 +353,16 @@ func replayC11(arg string) string {
 			return "MessageState.String panicked: " + msg
 		}
 		return "MessageState.String = " + s
+	case strings.HasPrefix(arg, "address "):
+		var ton, npi int
+		var hx string
+		fmt.Sscan(strings.TrimPrefix(arg, "address "), &ton, &npi, &hx)
+		no, _ := hex.DecodeString(hx)
+		a := pdu.Address{TON: byte(ton), NPI: byte(npi), No: string(no)}
+		if cls, route, msg := addressTextClass(a); cls != 0 {
+			return fmt.Sprintf("Address{%d,%d,%q}: route %s panicked: %s", ton, npi, no, route, msg)
+		}
+		return fmt.Sprintf("Address{%d,%d,%q}.String() = %q; every text route returns", ton, npi, no, a.String())
 	case strings.HasPrefix(arg, "udh "):
 		u := pdu.UserDataHeader{}
 		for _, kv := range strings.Fields(strings.TrimPrefix(arg, "udh ")) {
@@ -426,6 +440,9 @@ func corrC11(r *Run) {
 
 	// ---- 1'. command_status over its whole range, and the oversized-UDH frame class (c11_status.go)
 	c11Status(r, ts)
+
+	// ---- 1'''. semantically loaded contents in every field of every PDU type, every text route (c11_contents.go)
+	c11Contents(r, ts)
 
 	// ---- 1''. ReadSequence / ReadCommandStatus go through reflect: what the argument looks like decides whether they return
 	c11Shapes(r, ts)
